@@ -220,6 +220,9 @@ func dump(ctx *app.RequestContext) (string, int) {
 			sb.WriteString(" " + k)
 		}
 	}
+	// upload parts attached to the request object through its setters (a handler that
+	// prepares ctx.Request for forwarding)
+	fmt.Fprintf(&sb, "\nupload-parts: files=%d fields=%d", len(ctx.Request.MultipartFiles()), len(ctx.Request.MultipartFields()))
 	fmt.Fprintf(&sb, "\nhtmlrender=%T", ctx.HTMLRender)
 	// the stage events the context's trace info holds when the handler runs: those of this
 	// request up to here, none of an earlier one
